@@ -317,7 +317,7 @@ func (g *g) callE(d int, minRet int) *N {
 
 func (g *g) root() *N {
 	d := g.n(1, 3, "depth")
-	switch g.n(0, 11, "root") {
+	switch g.n(0, 12, "root") {
 	case 0, 1, 2:
 		return &N{K: "expr", Ns: []*N{g.anyE(d)}}
 	case 3:
@@ -326,6 +326,34 @@ func (g *g) root() *N {
 	case 4:
 		g.f("var_multi")
 		return &N{K: "var", Ps: []string{"x", "y"}, Ns: []*N{g.anyE(d), g.anyE(d)}}
+	case 12:
+		// several targets, ONE right-hand expression: destructured when it yields a non-empty
+		// list, otherwise assigned to the first target - evaluated once either way
+		g.f("multi_target_single_rhs")
+		var rhs *N
+		switch g.n(0, 5, "srhs") {
+		case 0:
+			rhs = g.intE(d)
+		case 1:
+			rhs = g.condE(d)
+		case 2:
+			rhs = g.leaf(&N{K: "list"}, true) // empty list
+		case 3:
+			rhs = g.leaf(&N{K: "nil"}, true)
+		case 4:
+			rhs = g.callE(d, -1)
+		default:
+			rhs = g.listE(d)
+		}
+		if rhs.K == "idx" {
+			// `a, b = m[k]` is the separate "value, found" statement form of the grammar
+			rhs = &N{K: "tern", Ns: []*N{{K: "true"}, rhs, {K: "nil"}}}
+		}
+		kind := "let"
+		if g.n(0, 2, "varform") == 0 {
+			kind = "var"
+		}
+		return &N{K: kind, Ps: []string{"x", "y"}, Ns: []*N{rhs}}
 	case 5:
 		g.f("return_list")
 		body := []*N{{K: "ret", Ns: []*N{g.anyE(d), g.anyE(d), g.anyE(d)}}}
